@@ -65,15 +65,25 @@ pub fn run(out: &mut Out, thorough: bool, seed: u64, extra: &[String]) {
     if extra.first().map(|s| s == "exhaustive").unwrap_or(false) { exhaustive(out); return; }
     let reps = if thorough { 60 } else { 8 };
     // ---- RNSBase: decompose / compose, arbitrary pairwise coprime moduli
-    for _ in 0..reps * 6 {
-        let k = r.range(1, 8) as usize;
-        let sm = r.chance(1, 4); let qs = coprime_base(&mut r, k, sm);
+    // the first bases are directed: word-size NTT primes (60 / 61 / 50 bits, 3..8 moduli, one mixed) — multi-word accumulation with carries
+    let directed: Vec<Vec<u64>> = [(60usize, 3usize), (60, 4), (61, 3), (50, 4), (60, 8)].iter().filter_map(|&(b, k)| std::panic::catch_unwind(|| hu::get_primes(2048, b, k).iter().map(|m| m.value()).collect::<Vec<u64>>()).ok())
+        .chain(std::panic::catch_unwind(|| { let a = hu::get_primes(2048, 60, 2); let b = hu::get_primes(2048, 40, 1); let c = hu::get_primes(2048, 61, 1); vec![a[0].value(), a[1].value(), b[0].value(), c[0].value()] }).ok()).collect();
+    for bi in 0..reps * 6 + directed.len() as u64 as usize {
+        let k = if bi < directed.len() { directed[bi].len() } else { r.range(1, 8) as usize };
+        let sm = r.chance(1, 4); let qs = if bi < directed.len() { directed[bi].clone() } else { coprime_base(&mut r, k, sm) };
         if qs.len() != k { continue; }
         let ms: Vec<Modulus> = qs.iter().map(|&q| Modulus::new(q)).collect();
         let base = match hu::RNSBase::new(&ms) { Ok(b) => b, Err(_) => { out.case(&format!("rns_compose {} {}", fl(&qs), fl(&vec![0; k])), "base-refused", || "ERR:refused".to_string()); continue; } };
         let mut vals = boundary_values(&mut r, &qs);
         let q = Big::product(&qs);
         for _ in 0..3 { vals.push(Big::random_below(&mut r, &q)); }
+        // powers of two and their neighbours (all-zero / all-one inner limbs: carry chains through the multi-word accumulation of `compose`)
+        if k >= 3 {
+            let mut p = Big::from_u64(1); let mut e = 0usize; let mut pows: Vec<Big> = vec![];
+            while !p.ge(&q) { pows.push(p.clone()); p = p.mul_u64(2); e += 1; }
+            let from = if thorough || bi < directed.len() { 0 } else { e.saturating_sub(40) };
+            for pw in &pows[from..] { for c in [pw.sub(&Big::from_u64(1)), pw.clone(), pw.add_u64(1)] { if !c.ge(&q) { vals.push(c); } } }
+        }
         for x in vals {
             let cls = format!("k{}", k);
             out.case(&format!("rns_decompose {} {}", fl(&qs), x.to_dec()), &cls, || { let mut v = x.limbs(k); base.decompose(&mut v); fl(&v) });
